@@ -6,6 +6,7 @@ CONSTANTS
   Mons = {}
   Pausables = {}
   Flyers = {}
+  AsyncDevs = {}
   ReadVal <- ReadValDef
   DataKeys <- DataKeysDef
   FutNames = {"f1"}
